@@ -2,7 +2,7 @@
     This file only restates lemmas proved in Util/Crc32Proofs.v (model: Util/Crc32Model.v mirroring
     src/util/crc32.c; specification: Util/Crc32Spec.v, the bit-serial IEEE 802.3 definition). *)
 From Coq Require Import NArith List.
-From Carquet Require Import Util.Crc32Spec Util.Crc32Model Util.Crc32Proofs.
+From Carquet Require Import Util.Crc32Spec Util.Crc32Model Util.Crc32Proofs Util.Crc32Chunk.
 Local Open Scope N_scope.
 
 (** The slicing-by-8 implementation model equals the bit-serial standard CRC-32 on every byte string. *)
@@ -14,6 +14,24 @@ Print Assumptions crc_model_eq_spec.
 Theorem crc_update_compose : forall a b, bytes a -> bytes b -> crc32 (a ++ b) = crc32_update (crc32 a) b.
 Proof. exact crc32_compose. Qed.
 Print Assumptions crc_update_compose.
+
+(** Any chunking: feeding a buffer to carquet_crc32_update in any number of pieces of any sizes (empty ones
+    included; the 8-byte main loop restarts in every piece) gives the IEEE CRC-32 of the whole ... *)
+Theorem crc_update_any_chunking : forall chunks, Forall bytes chunks ->
+  fold_left crc32_update chunks 0 = Crc32Spec.crc (concat chunks).
+Proof. exact crc32_chunked_spec. Qed.
+Print Assumptions crc_update_any_chunking.
+
+(** ... also from an arbitrary 32-bit starting state (a checksum continued by a later caller) ... *)
+Theorem crc_update_chunks_from_state : forall chunks c, c < 2^32 -> Forall bytes chunks ->
+  fold_left crc32_update chunks c = crc32_update c (concat chunks).
+Proof. exact crc32_update_chunks. Qed.
+Print Assumptions crc_update_chunks_from_state.
+
+(** ... and every checksum is a 32-bit value (what the page header's i32 field stores is the whole checksum). *)
+Theorem crc_update_is_32_bit : forall c data, c < 2^32 -> bytes data -> crc32_update c data < 2^32.
+Proof. exact crc32_update_lt. Qed.
+Print Assumptions crc_update_is_32_bit.
 
 (** Two equally long messages that differ exactly inside a window of at most 32 bits
     (any single bit, any byte, any burst up to 32 bits) have different checksums. *)
